@@ -142,6 +142,10 @@ func genMixedTerm(t *rapid.T) *Case {
 		ev.Ms = 100
 	}
 	c.Events = []Event{ev}
+	if rapid.IntRange(0, 5).Draw(t, "park_reader") == 0 {
+		// hold a handler's reader between its context check and its dequeue while the termination event strikes
+		c.Yields = append(c.Yields, Yield{Point: "server.read.beforeDequeue", Nth: rapid.IntRange(0, 8).Draw(t, "park_reader.nth"), Kind: "park"})
+	}
 	if rapid.IntRange(0, 3).Draw(t, "yield") == 0 {
 		c.Yields = append(c.Yields, Yield{
 			Point: rapid.SampledFrom([]string{"server.finish.afterCancel", "receiver.dequeue.beforeCredit", "client.finish.beforeTrailers", "client.cancel.afterFinish", "server.halfClose.beforeReceiverClose", "receiver.closure.afterWake"}).Draw(t, "yield.point"),
